@@ -126,6 +126,20 @@ func RunC20(d *Driver) *Report {
 			check("extend", append(append([]byte{}, raw...), 0))
 		}
 	}
+	// marks that are not choice letters are never accepted (building the question or verifying it fails)
+	for _, at := range []string{"single-choice", "multiple-choice"} {
+		for _, bad := range []string{"A", "1", "ab", "a b", "aa", "a,,b", "a, A", "ä", "-", "a, 1", "z", "a, z", "\"\""} {
+			fm, md := c20Question(at, bad, []string{"hi", "ho"})
+			r.Count("verify-invalid:"+at+":"+bad, true)
+			q, err := learn.NewQuestionModel("course/unit/exercise/q.md", learn.WithRawMD(fm, md))
+			if err != nil {
+				continue
+			}
+			if q.Verify() == nil {
+				r.Violation(Case{Stream: "verify-invalid", Input: fm + "---\n" + md, Real: "accepted", Spec: "the marked choices are not precisely the matching choice (a): rejected"})
+			}
+		}
+	}
 	// verification iff
 	letters := "abcde"
 	for nch := 2; nch <= 4; nch++ {
